@@ -188,8 +188,8 @@ theorem setOut_step {b : Nat} (w : World) (j : Nat) (path : List String) (v : HV
   · next top ht =>
     cases hs
     have htop := allL_getElem? _ _ _ h.out ht
-    have hp := setPathCopy_win (b := b) .shallow v path top w.nextTmp h.hb htop hv
-    have hb1 := h.bump (setPathCopy .shallow v path top w.nextTmp).2 hp.1
+    have hp := addFieldTop_win (b := b) Dr.addFieldsItemValue v path top w.nextTmp h.hb htop hv
+    have hb1 := h.bump (addFieldTop Dr.addFieldsItemValue v path top w.nextTmp).2 hp.1
     exact ⟨⟨hb1.inv.hb, hb1.inv.work, allL_set _ _ _ hb1.inv.out hp.2, h.colls, h.pipe, h.cpipe, h.stack⟩,
       ⟨rfl, rfl, rfl, rfl, rfl, rfl⟩, hp.1⟩
   · cases hs; exact Step.refl h
